@@ -94,12 +94,14 @@ M('eph-caller-no-skip', ['C02', 'C05'], Z, """                        if process
                             continue""", """                        if process_msg(sender.min_recv_id) is None:
                             pass""", ['C02.R1', 'C05.R4'])
 M('prev_id-rewind', ['C02'], Z, "        self.new_recv()\n\n    def destroy(self):\n        msg_close = {'cid'", "        self.new_recv()\n\n    def rewind(self):\n        self.prev_id = MSG_ID_INITIAL_PREV\n\n    def destroy(self):\n        msg_close = {'cid'", ['C02.R2'])
-M('min_send_id-not-consumed', ['C02'], Z, "            self.min_send_id = msg_id + 1\n\n            return True", "            return True", ['C02.R3'])
-M('min_send_id-consumed-conditionally', ['C02'], Z, "            self.min_send_id = msg_id + 1\n\n            return True", "            if topicmsgs:\n                self.min_send_id = msg_id + 1\n\n            return True", ['C02.R3'])
+M('min_send_id-not-consumed', ['C02'], Z, '            self.min_send_id = msg_id + 1  # the id is used up as soon as its first frame can go out: if a later message of the set can not be built or sent, the next set must not share the id with the part that is already on the wire\n\n', "", ['C02.R3'])
+M('min_send_id-consumed-conditionally', ['C02'], Z, '            self.min_send_id = msg_id + 1  # the id is used up', '            if do_hello: self.min_send_id = msg_id + 1  # the id is used up', ['C02.R3'])
 M('stale-send-not-ignored', ['C02'], Z, "            if (msg_id := state.msg_id) < self.min_send_id:\n                return ZMQStateRecv(self.min_send_id)", "            if (msg_id := state.msg_id) < self.min_send_id - 1:\n                return ZMQStateRecv(self.min_send_id)", ['C02.R3'])
 M('ff-guard-loses-not-ephemeral', ['C02', 'C05'], Z, "            if prev_id >= msg_id and not ephemeral:", "            if prev_id >= msg_id:", ['C02.R3', 'C05.R2'])
 M('ff-guard-flipped', ['C02'], Z, "            if prev_id >= msg_id and not ephemeral:", "            if prev_id < msg_id and not ephemeral:", ['C02.R3'])
 M('assembly-no-dup-test', ['C02'], Z, """                            if (topic := topic_map.get(topic, topic)) in data:
+                                self.new_recv()  # the set is dropped with the error: a caller that carries on (LOOP_EXC off) goes on with the next one, it is not left with complete sets that nothing takes and sources that are out of the poller
+
                                 raise RuntimeError(f'duplicate topic {topic!r} from: {sender.server_id}  @ {sender.addr}')
 
                             data[topic] = frame""", """                            topic = topic_map.get(topic, topic)
@@ -234,7 +236,7 @@ M('receiver-destroy-no-sub-close', ['C08'], Z, "            sender.sub.close()\n
 M('sender-destroy-no-ctx-free', ['C08'], Z, "                    pass\n\n        ZMQContext.free()\n\n    def send_oob(self, msg: ZMQMessage):\n        msg_ = [TOPIC_DELIM_B2", "                    pass\n\n    def send_oob(self, msg: ZMQMessage):\n        msg_ = [TOPIC_DELIM_B2", ['C08.R6'])
 M('exitmsg-skips-sender', ['C08'], MQ, "        if self.sender is not None:\n            self.sender.send_oob(reason)\n", "", ['C08.R6'])
 
-M('extra-emit-stop-in-shutdown-finally', ['C18'], F, "                        finally:\n                            filter.shutdown()", "                        finally:\n                            filter.shutdown()\n                            if filter.emitter is not None:\n                                filter.emitter.emit_stop()", ['C18.R1'])
+M('extra-emit-stop-in-shutdown-finally', ['C18'], F, "                            try:\n                                filter.shutdown()\n", "                            try:\n                                filter.shutdown()\n                                if filter.emitter is not None:\n                                    filter.emitter.emit_stop()\n", ['C18.R1'])
 M('complete-on-error-path', ['C18'], F, """                if filter is not None and hasattr(filter, 'emitter') and filter.emitter is not None:
                     filter.emitter.stop_lineage_heart_beat()
                     filter.emitter.emit_stop()
@@ -417,7 +419,7 @@ M('seed2-C15-mask-after-strip', ['C15'], VO, "            logger.info(f'video cr
 M('seed2-C09-ensure-ascii-false', ['C09'], MQ, "data = json_dumps(frame.data, separators=(',', ':')).encode() if frame.data else None", "data = json_dumps(frame.data, separators=(',', ':'), ensure_ascii=False).encode() if frame.data else None", ['C09.R2'])
 M('seed2-C16-bad-file-fails-open', ['C16'], CF, "        except Exception as e:\n            print(f\"Warning: Failed to read allowlist from {path}: {e}\")\n    \n    # Try environment variable", "        except Exception as e:\n            print(f\"Warning: Failed to read allowlist from {path}: {e}\")\n            return None\n    \n    # Try environment variable", ['C16.R3'])
 M('seed2-C14-restore-promotes-tmp', ['C14'], RL, "        if head is not None:\n            if not os.path.exists(head):  # exists() and not isfile() because we want to error on a directory", "        if head is not None:\n            if os.path.isfile(head + '.tmp'):\n                os.rename(head + '.tmp', head)\n\n            if not os.path.exists(head):  # exists() and not isfile() because we want to error on a directory", ['C14.R1'])
-M('seed-C08-propagated-error-announced-clean', ['C08'], F, "                        is_exc = isinstance(in_flight, Exception)  #", "                        is_exc = isinstance(in_flight, Exception) and not isinstance(in_flight, Filter.PropagateError)  #", ['C08.R1', 'C08.R1b'])
+M('seed-C08-propagated-error-announced-clean', ['C08'], F, "                        is_exc = in_flight is not None and not isinstance(in_flight, Filter.Exit)  #", "                        is_exc = in_flight is not None and not isinstance(in_flight, (Filter.Exit, Filter.PropagateError))  #", ['C08.R1', 'C08.R1b'])
 
 # ------------------------------------------------------------------------------------------------------ round 3 seeds
 M('seed3-C01-close-resets-shared-expected-id', ['C01', 'C02', 'C07'], Z, "                            sender.min_recv_id = MSG_ID_INITIAL  # for ephemeral only", "                            if sender_eph:\n                                sender.min_recv_id = MSG_ID_INITIAL\n                            else:\n                                min_recv_id = MSG_ID_INITIAL  # for ephemeral only", ['C01.R10', 'C02.R2', 'C07.R4'])
@@ -449,6 +451,8 @@ M('imagein-D12-shape', ['C15'], II, "hide_uri_users_and_pwds('file://' + path)",
 M('seed3-C02-topic-rename-cascades', ['C02'], Z, """                    for topic, frame in (recvd.items() if (recvd := sender.recvd) is not None else ()):
                         if frame is not None:
                             if (topic := topic_map.get(topic, topic)) in data:
+                                self.new_recv()  # the set is dropped with the error: a caller that carries on (LOOP_EXC off) goes on with the next one, it is not left with complete sets that nothing takes and sources that are out of the poller
+
                                 raise RuntimeError(f'duplicate topic {topic!r} from: {sender.server_id}  @ {sender.addr}')
 
                             data[topic] = frame
@@ -735,7 +739,7 @@ M('zmq-D64-shape-required-eph-close-spared', ['C03', 'C06'], Z, "if not client.e
 M('cli-D65-shape-generated-ids-ignore-user-ids', ['C12'], CLI, "    used_ids = {config.id for _, config, _ in filters if config.id is not None}\n", "    used_ids = set()\n", ['C12.R6'])
 M('cli-generated-id-not-recorded', ['C12'], CLI, "            config.id = new_id\n\n            used_ids.add(new_id)\n", "            config.id = new_id\n", ['C12.R6'])
 M('cli-single-name-not-first-choice', ['C12'], CLI, "            new_id = filter_name if len(configs) == 1 else None\n", "            new_id = None\n", ['C12.R6'])
-M('run-D66-shape-exit-kind-from-exc-info', ['C08'], F, "                        is_exc = isinstance(in_flight, Exception)  #", "                        is_exc = isinstance(sys.exc_info()[1], Exception)  #", ['C08.R10'])
+M('run-D66-shape-exit-kind-from-exc-info', ['C08'], F, "                        is_exc = in_flight is not None and not isinstance(in_flight, Filter.Exit)  #", "                        is_exc = isinstance(sys.exc_info()[1], Exception)  #", ['C08.R10'])
 M('zmq-D67-shape-pub-closed-with-default-linger', ['C05'], Z, "            pub.close(linger=ZMQ_EXPLICIT_LINGER)  #", "            pub.close()  #", ['C05.R12'])
 M('zmq-pub-closed-with-infinite-linger', ['C05'], Z, "            pub.close(linger=ZMQ_EXPLICIT_LINGER)  #", "            pub.close(linger=-1)  #", ['C05.R12'])
 M('rolllog-D68-shape-second-listing-unbounded', ['C13', 'C14'], RL, "(m := re_logpath.match(path)) and int(m.group(1)) <= newest:", "(m := re_logpath.match(path)):", ['C13.R8', 'C14.R7'])
@@ -801,3 +805,8 @@ M('d85-end-of-one-file-is-the-physical-end', ['C13'], RL, "                     
 M('d85-boundary-search-gives-up-after-one-block', ['C13'], RL, "                    at = start\n\n                read_file.seek(at)", "                    break\n\n                read_file.seek(at)", ['C13.R16'])
 M('d88-business-meter-from-the-global-provider', ['C16'], CL, 'self.business_meter = self.provider.get_meter(f"{service_name}_business")', 'self.business_meter = get_meter(f"{service_name}_business")', ['C16.R12'])
 M('d88-system-meter-from-the-global-provider', ['C16'], CL, 'self.meter = self.provider.get_meter(service_name)', 'self.meter = get_meter(service_name)', ['C16.R12'])
+M('d89-id-used-up-only-after-the-closing-message', ['C01'], Z, '            self.min_send_id = msg_id + 1  # the id is used up as soon as its first frame can go out: if a later message of the set can not be built or sent, the next set must not share the id with the part that is already on the wire\n\n            for topic, msg in topicmsgs.items():\n                env[\'xtra\'] = msg[0]\n                topic       = f\'{"" if topic.startswith("_") else TOPIC_DELIM}{topic}{TOPIC_DELIM}\'.encode()\n                msg         = [topic, json_dumps(env, separators=(\',\', \':\')).encode(), *msg[1:]]\n\n                for pub in pubs:\n                    pub.send_multipart(msg)\n\n            for pub in pubs:  # publish heartbeat / topics informative message\n                pub.send_multipart(msg_topics)\n\n            return True\n', '            for topic, msg in topicmsgs.items():\n                env[\'xtra\'] = msg[0]\n                topic       = f\'{"" if topic.startswith("_") else TOPIC_DELIM}{topic}{TOPIC_DELIM}\'.encode()\n                msg         = [topic, json_dumps(env, separators=(\',\', \':\')).encode(), *msg[1:]]\n\n                for pub in pubs:\n                    pub.send_multipart(msg)\n\n            for pub in pubs:  # publish heartbeat / topics informative message\n                pub.send_multipart(msg_topics)\n\n            self.min_send_id = msg_id + 1\n\n            return True\n', ['C01.R17'])
+M('d90-only-exceptions-announced-as-errors', ['C08'], F, "                        is_exc = in_flight is not None and not isinstance(in_flight, Filter.Exit)  #", "                        is_exc = isinstance(in_flight, Exception)  #", ['C08.R1'])
+M('d91-exit-in-shutdown-always-let-through', ['C08'], F, "                                if in_flight is None or isinstance(in_flight, Filter.Exit):\n                                    raise\n", "                                raise\n", ['C08.R1b'])
+M('d91-what-ended-the-loop-not-remembered', ['C08'], F, "                        except BaseException as exc:\n                            in_flight = exc\n\n                            raise\n\n                        finally:\n                            try:", "                        finally:\n                            try:", ['C08.R1b'])
+M('d92-duplicate-topic-error-leaves-the-sets', ['C04'], Z, "                                self.new_recv()  # the set is dropped with the error", "                                pass  # the set is dropped with the error", ['C04.R13'])
